@@ -69,6 +69,10 @@ class iNETPackage(object):
         (self.definitionID, self._length, _res, self.flags, self.timedelta) = struct.unpack_from(
             iNETPackage.PKG_FORMAT, buf
         )
+        if self._length < iNETPackage.PKG_FORMAT_LEN:
+            raise ValueError(
+                "Package length field {} is shorter than the package header".format(self._length)
+            )
         self.payload = buf[iNETPackage.PKG_FORMAT_LEN : self._length]
         if self._length % 4 != 0:
             padding_len = 4 - (self._length % 4)
